@@ -4,6 +4,7 @@ import (
 	"bytes"
 	"encoding/hex"
 	"fmt"
+	logger "github.com/ElrondNetwork/elrond-go-logger"
 	"math/big"
 	"math/rand"
 	"sort"
@@ -76,6 +77,14 @@ func RandSchedule(r *rand.Rand, gen int) Schedule {
 
 // NewWorld builds the world of a configuration: universe, shards, genesis accounts.
 func NewWorld(cfg Config) (*World, error) {
+	// the process log level is a node configuration like any other (operators do run with TRACE);
+	// nothing is written anywhere (no observer), only the level is set
+	logger.ClearLogObservers()
+	if cfg.TraceLog {
+		_ = logger.SetLogLevel("*:TRACE")
+	} else {
+		_ = logger.SetLogLevel("*:INFO")
+	}
 	r := rand.New(rand.NewSource(cfg.CfgSeed))
 	u := &Universe{NumShards: cfg.NumShards, Owner: map[string][]byte{}}
 	for i := 0; i < cfg.NumUsers; i++ {
@@ -383,6 +392,26 @@ func (w *World) Apply(ev Event) bool {
 		if ev.Shard >= uint32(len(w.Nodes)) {
 			return false
 		}
+		if ev.Probe == "replace" {
+			// a fresh instance of a function (built by another factory with the same configuration) is
+			// put under the same name; the function must not have been removed
+			known := false
+			for _, n := range spec.AllFunctions {
+				known = known || n == ev.ID
+			}
+			nd := w.Nodes[ev.Shard]
+			if !known || nd.HostRemoved[ev.ID] {
+				return false
+			}
+			if err := nd.HostReplace(ev.ID); err != nil {
+				w.violate(spec.Violation{Props: spec.P("C18"), Clause: "registry", Detail: fmt.Sprintf("shard %d: replacing %s by a fresh instance through the container API failed: %v", nd.ID, ev.ID, err)})
+				break
+			}
+			w.Stats.Faults["function-replaced-by-fresh-instance-by-host"]++
+			w.logf("host replaces %s in the container of shard %d by a fresh instance", ev.ID, ev.Shard)
+			w.CheckRegistry(nd)
+			break
+		}
 		ok := false
 		for _, n := range RemovableFunctions {
 			ok = ok || n == ev.ID
@@ -488,6 +517,10 @@ var RemovableFunctions = []string{spec.FnClaimRewards, spec.FnChangeOwner, spec.
 
 // CheckRegistry checks C18's registry half and the activation flags of a shard.
 func (w *World) CheckRegistry(nd *Node) {
+	if nd.BuildProblem != "" {
+		w.violate(spec.Violation{Props: spec.P("C09"), Clause: "fail-open-default", Detail: fmt.Sprintf("shard %d: %s", nd.ID, nd.BuildProblem)})
+		nd.BuildProblem = ""
+	}
 	names := nd.ContainerNames()
 	var want []string
 	for _, n := range spec.AllFunctions {
@@ -499,6 +532,19 @@ func (w *World) CheckRegistry(nd *Node) {
 	if fmt.Sprint(names) != fmt.Sprint(want) || nd.Container.Len() != len(want) {
 		w.violate(spec.Violation{Props: spec.P("C18"), Clause: "registry", Detail: fmt.Sprintf("shard %d container holds %v (len %d), the protocol defines %v", nd.ID, names, nd.Container.Len(), want)})
 		return
+	}
+	// the container answers for these names and for no other: a name that merely looks like one
+	// (surrounding white space, another case, a cut or extended spelling) is not a built-in function
+	for _, n := range spec.AllFunctions {
+		for _, v := range []string{n + " ", " " + n, n + "\n", "\t" + n, n + "\x00", strings.ToLower(n), strings.ToUpper(n), n[:len(n)-1], n + "2", n + "@"} {
+			if v == n {
+				continue
+			}
+			if bf, err := nd.Container.Get(v); err == nil && bf != nil {
+				w.violate(spec.Violation{Props: spec.P("C18"), Clause: "registry", Detail: fmt.Sprintf("shard %d: the container resolves %q, which is not one of the protocol's names", nd.ID, v)})
+				return
+			}
+		}
 	}
 	for _, n := range want {
 		bf, err := nd.Container.Get(n)
